@@ -318,6 +318,7 @@ class Crate:
         self.no_std_pred = None       # formula under which #![no_std] applies
         self.derives = []             # (trait name, guard, feature literal, module path list, fn name)
         self.macros = {}              # name -> (pattern text, body items)
+        self.cfg_macros = []          # `cfg!(..)` calls in expressions
         self.impls = []               # trait impls: {trait, type, own (cfgs written on the impl), guard (effective)}
         self.stats = {"items": 0, "modules": 0, "cfg_attrs": 0, "cfg_test_skipped": 0, "templates": 0,
                       "macro_expansions": 0, "use_decls": 0}
@@ -793,6 +794,10 @@ class Analyzer:
                     self.scan(mod, t.items, guard, file, template=template)
                 i += 1
                 continue
+            if is_id(t, "cfg") and i + 2 < n and is_p(items[i + 1], "!") and isinstance(items[i + 2], Group):
+                # `cfg!(..)` in an expression: behaviour that depends on the feature set INSIDE a compiled item
+                c.cfg_macros.append({"file": file, "line": t.line, "pred": L.text_of(items[i + 2].items).replace(" ", ""),
+                                     "in_template": template})
             if is_id(t) and t.text == "use" and not template and (i == 0 or not is_p(items[i - 1], ".")) \
                     and i + 1 < n and (is_id(items[i + 1]) or is_p(items[i + 1], ":")):
                 j = i + 1
@@ -1315,6 +1320,17 @@ def extract(repo=None):
                     src = re.sub(r"//[^\n]*", "", src)
                     grep_cfg += len(re.findall(r"#\[cfg\(", src))
     seen_cfg = impl.stats["cfg_attrs"] + facade.stats["cfg_attrs"]
+    grep_cfgm = 0
+    for c_ in (impl, facade):
+        for d_, _, names_ in os.walk(c_.root_dir):
+            for nme in names_:
+                if nme.endswith(".rs"):
+                    src_ = re.sub(r"//[^\n]*", "", open(os.path.join(d_, nme)).read())
+                    grep_cfgm += len(re.findall(r"\bcfg!\s*\(", src_))
+    seen_cfgm = len(impl.cfg_macros) + len(facade.cfg_macros)
+    stats["cfg_macro_calls"] = seen_cfgm
+    if seen_cfgm > grep_cfgm or (grep_cfgm and not seen_cfgm):
+        raise TranslatorError("cfg!(..) calls: extractor %d vs regex count %d" % (seen_cfgm, grep_cfgm))
     stats["grep_cfg_attrs"] = grep_cfg
     stats["seen_cfg_attrs"] = seen_cfg
     if grep_cfg != seen_cfg:
@@ -1322,6 +1338,8 @@ def extract(repo=None):
     return {"variables": variables, "ok_pairs": ok_pairs, "exceptions": exceptions, "exports": exports,
             "helpers": helpers, "derives": derives, "facade_features": fac_feats, "impl_features": imp_feats,
             "dep_table": dep_table, "trait_exports": trait_exports, "surface": surface,
+            "cfg_macros": [{"file": os.path.relpath(m["file"], repo), "line": m["line"], "pred": m["pred"],
+                            "in_template": m["in_template"]} for cr in (impl, facade) for m in cr.cfg_macros],
             "trait_guards": trait_guards, "alternatives": alternatives, "std_uses": std_uses, "doc_files": doc_files,
             "impls": [{"trait": i["trait"], "type": i["type"], "guard": i["guard"]} for i in facade.impls], "notes": notes, "stats": stats, "derive_features": derive_feats,
             "facade_tests": [(v.get("name"), v.get("path"), v.get("required-features", []))
@@ -1402,6 +1420,11 @@ def render(x):
     L_.append("Definition std_use_guards : list formula :=")
     L_.append("  [ " + ";\n    ".join(coq_formula(g, index) for g in x["std_uses"]) + " ].")
     L_.append("Definition std_var : N := %d." % index["std"])
+    L_.append("")
+    L_.append("(* `cfg!(..)` calls in expressions of both crates: (file: predicate, line) *)")
+    L_.append("Definition cfg_macro_sites : list (string * N) :=")
+    L_.append("  [ " + "; ".join("(%s, %d)" % (coq_string("%s: cfg!(%s)" % (m["file"], m["pred"].replace('"', "'"))), m["line"])
+                                 for m in x["cfg_macros"]) + " ].")
     L_.append("")
     L_.append("(* impl/doc/<feature>.md, included by create_derive! under that feature: (feature, file exists) *)")
     L_.append("Definition doc_files : list (string * bool) :=")
